@@ -38,7 +38,7 @@ Qed.
 (* every unit the readers accept is handled by dimen.__new__ (no ValueError path), and is not empty *)
 Lemma units_handled :
   forallb (fun u => match dimen_of_unit u with Some _ => negb (match u with [] => true | _ => false end) | None => false end)
-          (dimen_units ++ mudimen_units ++ fil_units) = true.
+          (dimen_units ++ mudimen_units ++ fil_units ++ fil_units_minus) = true.
 Proof. vm_compute. reflexivity. Qed.
 
 (* the fil orders are the offsets 2e9, 4e9, 6e9 on top of the amount 1 *)
@@ -46,8 +46,9 @@ Lemma fil_encoding :
   dimen_of_unit s_fil = Some (1 + two_e9)%Q /\ dimen_of_unit s_fill = Some (1 + four_e9)%Q /\ dimen_of_unit s_filll = Some (1 + six_e9)%Q.
 Proof. vm_compute. repeat split. Qed.
 
-Lemma fil_units_longest_first : fil_units = [s_filll; s_fill; s_fil].
-Proof. reflexivity. Qed.
+(* both readStretch and readShrink try the longest keyword first (otherwise `fill` would be read as fil followed by l) *)
+Lemma fil_units_longest_first : fil_units = [s_filll; s_fill; s_fil] /\ fil_units_minus = [s_filll; s_fill; s_fil].
+Proof. split; reflexivity. Qed.
 
 Lemma dimen_units_tex : dimen_units = [s_pt; s_pc; s_in; s_bp; s_cm; s_mm; s_dd; s_cc; s_sp; s_ex; s_em].
 Proof. reflexivity. Qed.
@@ -108,9 +109,9 @@ Proof.
        end; inversion H; lia.
 Qed.
 
-Lemma read_fil_part_level : forall kw u s lvl v s' lvl', read_fil_part kw u s lvl = Ok v s' lvl' -> lvl' = lvl.
+Lemma read_fil_part_level : forall kw u f s lvl v s' lvl', read_fil_part kw u f s lvl = Ok v s' lvl' -> lvl' = lvl.
 Proof.
-  intros kw u s lvl v s' lvl' H. unfold read_fil_part in H.
+  intros kw u f s lvl v s' lvl' H. unfold read_fil_part in H.
   repeat (break_match; try discriminate); try (inversion H; lia).
   match goal with Hi : read_dimen _ _ _ = Ok _ _ _ |- _ => apply read_dimen_level in Hi end. inversion H; lia.
 Qed.
@@ -121,7 +122,7 @@ Proof.
   repeat (break_match; try discriminate); try (inversion H; lia).
   all: repeat match goal with
        | Hi : read_dimen _ _ _ = Ok _ _ _ |- _ => apply read_dimen_level in Hi
-       | Hi : read_fil_part _ _ _ _ = Ok _ _ _ |- _ => apply read_fil_part_level in Hi
+       | Hi : read_fil_part _ _ _ _ _ = Ok _ _ _ |- _ => apply read_fil_part_level in Hi
        end; inversion H; lia.
 Qed.
 
